@@ -66,6 +66,7 @@ type stressOut struct {
 	Overwrites         int64     `json:"overwrites"`
 	LateRows           int64     `json:"late_rows"`
 	Queries            int64     `json:"queries"`
+	CountQueries       int64     `json:"count_queries"`
 	QueriesDuringFlush int64     `json:"queries_overlapping_flush"`
 	QueriesDuringComp  int64     `json:"queries_overlapping_compaction"`
 	QueryErrs          int64     `json:"query_errors_before_close"`
@@ -331,6 +332,10 @@ func (st *stress) reader(c int, r *gen.Rand, wg *sync.WaitGroup) {
 			}
 		}
 		qn++
+		if r.Chance(1, 6) && !st.closing.Load() {
+			st.countQuery(c, qn, ix)
+			continue
+		}
 		var kmin, kmax int64 = 0, kInf
 		if r.Chance(1, 3) { // sub-range query (exercises the time filter of the file lists)
 			hi := int64(r.Range(1, 400))
@@ -470,6 +475,72 @@ func (st *stress) reader(c int, r *gen.Rand, wg *sync.WaitGroup) {
 		}
 		if st.stop.Load() && !st.closing.Load() {
 			return
+		}
+	}
+}
+
+// countQuery: count(v) group by series over all times >= 1 through the aggregate path (pre-aggregation from chunk
+// metadata where the files allow it).  DIRECT ORACLE per visible series: at least the distinct points acknowledged
+// before the query started, at most the number of WRITES (versions) begun when it ended - a view that held the
+// snapshot table together with a file flushed from it counts every write of that table twice.
+func (st *stress) countQuery(c, qn int, ix *ridx) {
+	startSeq := st.tick()
+	counts, err := runCount(st.sh, mst, 1, kInf)
+	endSeq := st.tick()
+	atomic.AddInt64(&st.out.CountQueries, 1)
+	if st.closing.Load() {
+		return
+	}
+	if err != nil {
+		if strings.HasPrefix(err.Error(), "PANIC") {
+			st.fail("panic", c, qn, "%v", err)
+		} else {
+			st.fail("query-error", c, qn, "count query failed before close was called: %v", err)
+		}
+		return
+	}
+	for w, lg := range st.logs {
+		n := lg.n.Load()
+		for i := ix.upto[w]; i < n; i++ {
+			e := &lg.ents[i]
+			p := point{e.s, e.k}
+			ix.byPt[p] = append(ix.byPt[p], e)
+		}
+		ix.upto[w] = n
+	}
+	lower := map[int]int64{}
+	upper := map[int]int64{}
+	for p, ents := range ix.byPt {
+		if p.K < 1 {
+			continue
+		}
+		acked := false
+		for _, e := range ents {
+			if a := e.ackSeq.Load(); a != 0 && a < startSeq {
+				acked = true
+			}
+			if e.startSeq < endSeq {
+				// every VERSION of a point counts towards the upper bound: without the exact-statistics hint the
+				// statistics shortcut counts an overwritten point once per container that holds a version of it
+				// (documented approximation, see C09) - but never a single write twice
+				upper[p.S]++
+			}
+		}
+		if acked {
+			lower[p.S]++
+		}
+	}
+	for s := 0; s < st.nseries(); s++ {
+		vis := st.seen[s].Load()
+		if vis == 0 || vis >= startSeq {
+			continue
+		}
+		got := counts[s]
+		if got < lower[s] {
+			st.fail("count-too-low", c, qn, "series %d: count(v) = %d although %d distinct points were acknowledged before the query started (clock %d..%d)%s", s, got, lower[s], startSeq, endSeq, st.eventsBetween(startSeq, endSeq))
+		}
+		if got > upper[s] {
+			st.fail("count-too-high", c, qn, "series %d: count(v) = %d although only %d writes of the series had begun when the query ended: some write is counted more than once (clock %d..%d)%s", s, got, upper[s], startSeq, endSeq, st.eventsBetween(startSeq, endSeq))
 		}
 	}
 }
